@@ -49,14 +49,22 @@ IqResult gh_value;          /* value of its last completion */
 bool gh_started;            /* a request with id g_wid has been registered (emplace succeeded) */
 int gh_others_completed;    /* completions of promises registered under other keys (observed, no claim) */
 
+qstr gh_cfg_jidBare;        /* the configured own bare JID (QXmppConfiguration::jidBare(), a pure getter) */
+
 /* ---- promise / task ----------------------------------------------------------------------------------------------------- */
 typedef struct qpromise { bool gh_is_w; bool finished; } qpromise;   /* gh_is_w: this is the promise registered under g_wid */
 typedef struct qtask { bool finished; bool of_w; IqResult value; } qtask; /* of_w: handle on the witness request's promise */
 static inline void qpromise_ctor(qpromise *p) { p->gh_is_w = false; p->finished = false; }
+bool gh_reentrant;                       /* continuations start new requests while they are being run (finding C07-F1) */
+struct OutgoingIqManager *gh_iqm_reenter; /* the table such continuations call back into */
+void gh_continuation_runs(void);         /* units/C07/model_reenter.h */
 static inline void qpromise_finish_result(qpromise *p, const IqResult *v) {
   p->finished = true;
   if (p->gh_is_w) { if (gh_completions < 1000) gh_completions++; gh_value = *v; }
   else if (gh_others_completed < 1000) gh_others_completed++;
+#ifdef REENTRANT_CONTINUATIONS
+  gh_continuation_runs();
+#endif
 }
 static inline void qpromise_finish_error(qpromise *p, const QXmppError *e) { IqResult v; IqResult_from_error(&v, e); qpromise_finish_result(p, &v); }
 static inline void qpromise_finish_element(qpromise *p, qdom e) { IqResult v; v.kind = IQ_ELEMENT; v.el = e; v.err.description = 0; v.err.error.kind = 0; v.err.error.val = 0; qpromise_finish_result(p, &v); }
